@@ -121,7 +121,8 @@ func (interp *Interpreter) CompileAST(n ast.Node) (*Program, error) {
 	interp.mutex.Unlock()
 
 	// Add main to list of functions to run, after all inits.
-	if m := gs.sym[mainID]; pkgName == mainID && m != nil {
+	if m := gs.sym[mainID]; pkgName == mainID && m != nil && m.node != nil && (m.node == root || m.node.hasAnc(root)) {
+		// Only the piece of source which defines main runs it.
 		initNodes = append(initNodes, m.node)
 	}
 
